@@ -161,6 +161,38 @@ CLAIMED['C19'] = dict(
     note='The fresh-interpreter decode is the oracle document.  Sentinels are unique ids / serial numbers per PEL.',
     technique='TLC model checking of DecodeHistory.tla + TLC-generated histories replayed into one interpreter, cache state and documents validated by TLC against the spec and a fresh-interpreter oracle')
 
+CLAIMED['C08'] = dict(
+    text='Listing.tla models the listing loop of -l / -a / -n (sorted top-level file list, per-file decode inside an '
+         'exception barrier) against the rule Shown(dir, mode, rev); TLC checks MatchesRule, Agree (count = list = all, '
+         'reverse = Reverse) over every directory of <= 3 files x 3 kinds x selected / not.  Generated directories of '
+         'well-formed PELs with adversarial names are then shown by the real CLI with -n, -l, -a, -l -x, -a -x under random '
+         'option sets, --reverse and --extension; TLC computes the selected set with Selection!RuleSet, orders it with its '
+         'own code-point order and judges CountEq, ListIds, AllIds, Hex*Ids and SummaryFields.',
+    design='DESIGN.md 4.9, 5 C08',
+    note='Directories hold only well-formed PELs with distinct entry ids; ambiguous severities 0x01..0x0F are not used.',
+    technique='TLC model checking of Listing.tla + real CLI outputs on generated directories judged by TLC (Selection rule + name order computed in the spec)')
+CLAIMED['C09'] = dict(
+    text='Listing.tla (model-checked: JunkInvariant, ExitZero; the variant without the exception barrier fails) states that '
+         'files a mode cannot decode contribute nothing.  For generated directories and junk sets (12 junk kinds incl. '
+         'every header / body truncation class, PCE-size and text-field corruptions, random bytes, empty files, nested '
+         'directories with valid PELs; names sorting before / between / after) every directory mode is run with and '
+         'without the junk it cannot decode (established by a stand-alone run); TLC judges ExitZero, OneJsonDocument, '
+         'OthersUnchanged (identical stdout), JsonFilesUnchanged, NoFileForJunk.',
+    design='DESIGN.md 4.9, 5 C09',
+    note='OS-level unreadable files are outside the statement.  For -j stdout is expected to stay empty.',
+    technique='TLC model checking of Listing.tla + differential runs of the real CLI (directory vs directory plus junk) judged by TLC')
+CLAIMED['C10'] = dict(
+    text='Trace_Dir computes, from the abstract attributes of every PEL in a directory, the match set of each look-up '
+         '(platform log id equal as a number, BMC id equal, file stored under the entry id, reference code containing '
+         'the string / not in the exclusion list) - all PELs considered, hidden and non-serviceable included, as '
+         'Selection.tla (model-checked) demands for look-ups without selection options.  Directories with colliding ids '
+         '(ids below 0x10000000, shared digits, prefix-related decimal BMC ids, several PELs per id) are queried through '
+         'the real CLI in every spelling; TLC judges PlidExact, BmcIdFound, IdFound, SrcExact, SrcExcludeExact, '
+         'NotFoundReport.',
+    design='DESIGN.md 4.9, 5 C10',
+    note='Queries have 8 hex digits after prefix stripping; reference codes are 8 characters; file names carry their entry id.',
+    technique='TLC-computed match sets (PelDir/Selection operators) against real CLI look-up results on generated directories')
+
 REASON_NOT_YET = 'check not built yet in this session (planned per DESIGN.md 5); not claimed until its TLC-judged check runs green on the unchanged tree'
 
 
